@@ -1,6 +1,7 @@
 package h
 
 import (
+	"crypto/sha256"
 	"encoding/hex"
 	"math/big"
 	"sort"
@@ -10,6 +11,7 @@ import (
 	disputetypes "github.com/tellor-io/layer/x/dispute/types"
 	minttypes "github.com/tellor-io/layer/x/mint/types"
 	oracletypes "github.com/tellor-io/layer/x/oracle/types"
+	registrytypes "github.com/tellor-io/layer/x/registry/types"
 	reportertypes "github.com/tellor-io/layer/x/reporter/types"
 
 	"cosmossdk.io/collections"
@@ -71,6 +73,12 @@ func (w *World) project(rec Rec) {
 	}
 	if w.Proj["dispute"] {
 		post["dispute"] = w.projDispute()
+	}
+	if w.Proj["hold"] {
+		post["hold"] = w.projHoldings()
+	}
+	if w.Proj["config"] {
+		post["config"] = w.projConfig()
 	}
 	if w.Proj["bridge"] {
 		post["bridge"] = w.projBridge()
@@ -362,4 +370,80 @@ func (w *World) projBridge() Rec {
 		wid = int(x.Id)
 	}
 	return Rec{"claimed": claimed, "wid": wid}
+}
+
+// projHoldings: for every named user account its liquid balance, delegated stake (delegations at
+// token value + unbonding entries), reward credit and reporter selection.
+func (w *World) projHoldings() Rec {
+	out := Rec{}
+	accts := map[string]sdk.AccAddress{}
+	for _, a := range w.Actors {
+		accts[a.Name] = a.Addr
+	}
+	for _, v := range w.Vals {
+		accts[v.Name] = v.Oper.Addr
+	}
+	for n, a := range accts {
+		stake := new(big.Int)
+		dels, _ := w.App.StakingKeeper.GetDelegatorDelegations(w.Ctx, a, 1000)
+		for _, d := range dels {
+			va, _ := sdk.ValAddressFromBech32(d.ValidatorAddress)
+			if v, err := w.App.StakingKeeper.GetValidator(w.Ctx, va); err == nil {
+				stake.Add(stake, v.TokensFromShares(d.Shares).TruncateInt().BigInt())
+			}
+		}
+		ubds, _ := w.App.StakingKeeper.GetUnbondingDelegations(w.Ctx, a, 1000)
+		for _, u := range ubds {
+			for _, e := range u.Entries {
+				stake.Add(stake, e.Balance.BigInt())
+			}
+		}
+		credit := Signed{Mag: Num{}}
+		if d, err := w.App.ReporterKeeper.SelectorTips.Get(w.Ctx, a.Bytes()); err == nil {
+			credit = Dec18(d)
+		}
+		sel := "none"
+		if s, err := w.App.ReporterKeeper.Selectors.Get(w.Ctx, a.Bytes()); err == nil {
+			sel = w.Name(sdk.AccAddress(s.Reporter).String())
+		}
+		out[n] = Rec{"bal": NumInt(w.Bal(a)), "stake": NumBig(stake), "credit": credit, "sel": sel}
+	}
+	return out
+}
+
+func (w *World) projConfig() Rec {
+	r := Rec{}
+	if p, err := w.App.OracleKeeper.Params.Get(w.Ctx); err == nil {
+		r["minstake"] = NumInt(p.MinStakeAmount)
+	}
+	if p, err := w.App.ReporterKeeper.Params.Get(w.Ctx); err == nil {
+		r["maxsel"] = int(p.MaxSelectors)
+		r["mintrb"] = NumInt(p.MinTrb)
+		r["mincomm"] = Dec18(p.MinCommissionRate)
+	}
+	if p, err := w.App.DisputeKeeper.Params.Get(w.Ctx); err == nil {
+		r["team"] = w.Name(sdk.AccAddress(p.TeamAddress).String())
+	}
+	if m, err := w.App.MintKeeper.Minter.Get(w.Ctx); err == nil {
+		r["mintinit"] = m.Initialized
+	}
+	if l, err := w.App.BridgeKeeper.SnapshotLimit.Get(w.Ctx); err == nil {
+		r["snaplimit"] = int(l.Limit)
+	} else {
+		r["snaplimit"] = -1
+	}
+	cl, _ := w.App.OracleKeeper.GetCyclelist(w.Ctx)
+	h := sha256.New()
+	for _, q := range cl {
+		h.Write(q)
+		h.Write([]byte{0})
+	}
+	r["cyclelist"] = hex.EncodeToString(h.Sum(nil))[:16]
+	specs := Rec{}
+	_ = w.App.RegistryKeeper.SpecRegistry.Walk(w.Ctx, nil, func(k string, d registrytypes.DataSpec) (bool, error) {
+		specs[k] = Rec{"win": int(d.ReportBlockWindow), "agg": d.AggregationMethod, "vtype": d.ResponseValueType, "registrar": d.Registrar}
+		return false, nil
+	})
+	r["specs"] = specs
+	return r
 }
